@@ -14,6 +14,18 @@
 //          chunks of a generated size; the output is taken from stdout or from the file named by the second argument.
 //          Clauses: exit status 0, output == expected bytes per delivery; the library call parse_data_string on the same
 //          text is compared as well (a difference there gets its own signature).
+//   tooltail  how the text ENDS: the tool is the command-line face of parse_data_string, so for exactly the bytes delivered
+//          its output is what the library call returns for those bytes - also when the text stops in the middle of a
+//          construct. A generated documented text (0..~6000 characters, sometimes around 4096 / 65536) is followed by a
+//          tail: an open "..." or '...' string (some content, optionally a backslash last), an open /* comment, a //
+//          comment without its newline, a # / % marker with or without a numeral, a single hex digit, a cut through the
+//          generated text at an arbitrary character, or nothing (closed text) - and then 0..8 bytes drawn from space, tab,
+//          CR, LF (inside an open string those are data: 1 byte each in "...", 2 in '...'). Where such a text ends inside
+//          an open construct the syntax documents no closing, so the expectation is the differential one: exit status 0
+//          and output == parse_data_string(text) for each of the three deliveries (the harness calls the library of the
+//          same tree in-process; mask.size() == data.size() there). When the reference interpreter says the whole text is
+//          documented syntax (closed text + blanks, // comment at the end, ...) the library result must equal the
+//          reference bytes as well. Exhaustive part: 2 heads x 14 open-ended tails x every blank string of length 0..2.
 #include <errno.h>
 #include <signal.h>
 #include <spawn.h>
@@ -456,6 +468,126 @@ static void run_tool(const Case& c) {
   ctx().cls(cat("tool:profile ", kProfileNames[profile]));
 }
 
+// ---------------------------------------------------------------- texts that end in the middle of a construct
+
+enum TailKind : uint64_t { T_DQ = 0, T_SQ, T_BLOCK, T_LINE, T_NUMERAL, T_NYBBLE, T_TRUNC, T_CLOSED, T_COUNT };
+static const char* kTailNames[T_COUNT] = {"open \"...\" string", "open '...' string", "open /* comment", "// comment without newline",
+    "# / % marker at the end", "single hex digit at the end", "generated text cut at an arbitrary character", "closed text"};
+static const char kBlanks[] = " \t\r\n";
+
+// the body of a string that is never closed: no unescaped closing quote; optionally a backslash as the last character
+static void open_string_body(string& t, Rng& r, char q) {
+  size_t n = r.below(3) ? r.below(14) : 0;
+  for (size_t k = 0; k < n; k++) {
+    char ch;
+    switch (r.below(8)) {
+      case 0: ch = kBlanks[r.below(4)]; break;
+      case 1: ch = "\"\\'?$#%/*"[r.below(9)]; break;
+      case 2: ch = (q == '"') ? static_cast<char>(0x80 + r.below(0x80)) : 'w'; break;
+      default: ch = static_cast<char>(0x20 + r.below(0x5F)); break;
+    }
+    if (ch == q || ch == '\\') t += '\\';
+    t += ch;
+  }
+  if (r.chance(1, 4)) t += '\\'; // the blank that follows is then an escaped character
+}
+
+static string gen_tail_text(uint64_t seed, uint64_t prefix_len, uint64_t profile, uint64_t kind, uint64_t blanks) {
+  string t = gen_text(seed, prefix_len, profile).text;
+  Rng r{(seed ^ 0x7461696C5F5F3039ULL) * 0x9E3779B97F4A7C15ULL + kind * 131 + blanks};
+  switch (kind) {
+    case T_DQ:
+      t += '"';
+      open_string_body(t, r, '"');
+      break;
+    case T_SQ:
+      t += '\'';
+      open_string_body(t, r, '\'');
+      break;
+    case T_BLOCK: {
+      string body = junk(r, r.below(40), false);
+      size_t at = 0;
+      while ((at = body.find("*/", at)) != string::npos) body[at + 1] = '.';
+      if (!body.empty() && body[0] == '/') body[0] = ' ';
+      t += "/*" + body;
+      break;
+    }
+    case T_LINE: t += "//" + junk(r, r.below(30), true); break;
+    case T_NUMERAL: {
+      static const char* const markers[] = {"#", "##", "###", "####", "%", "%%"};
+      t += markers[r.below(6)];
+      if (r.chance(1, 2)) t += cat(1 + r.below(100));
+      break;
+    }
+    case T_NYBBLE: t += kHex[r.below(22)]; break;
+    case T_TRUNC: t.resize(r.below(t.size() + 1)); break;
+    default: break;
+  }
+  for (uint64_t k = 0; k < blanks; k++) t += kBlanks[r.below(4)];
+  return t;
+}
+
+// case: n = [seed, prefix length, profile, delivery options, tail kind, number of blanks]; or s = [text] for a text given in full
+static void run_tail(const Case& c) {
+  string text;
+  uint64_t opts = c.u(3), kind = T_COUNT;
+  if (!c.s.empty()) {
+    text = c.str(0);
+  } else {
+    uint64_t prefix_len = c.u(1), profile = c.u(2), blanks = c.u(5);
+    kind = c.u(4);
+    if (prefix_len > (1u << 18) || profile >= P_COUNT || kind >= T_COUNT || blanks > 64) throw std::logic_error("case outside the generated domain");
+    text = gen_tail_text(c.u(0), prefix_len, profile, kind, blanks);
+  }
+  if (text.find('\0') != string::npos) throw std::logic_error("ORACLE: a tail text contains a NUL byte");
+  size_t trailing = 0;
+  while (trailing < text.size() && strchr(kBlanks, text[text.size() - 1 - trailing])) trailing++;
+  string shown = text.size() <= 48 ? text : "..." + text.substr(text.size() - 45);
+  string how = cat("text of ", text.size(), " characters ending in ", c09ref::ref_parse(text).documented ? "documented syntax" : "an unfinished construct",
+      " with ", trailing, " trailing blank(s) (", kind < T_COUNT ? kTailNames[kind] : "given text", "; end of text: ", hex(shown), ")");
+
+  // the library of the same tree on exactly these bytes
+  string mask;
+  string lib = phosg::parse_data_string(text, &mask);
+  VCHECK(mask.size() == lib.size(), "library-mask-size:tail-text", "parse_data_string returned ", lib.size(), " data bytes and ", mask.size(), " mask bytes on a ", how);
+  c09ref::Parsed ref = c09ref::ref_parse(text);
+  if (ref.documented) {
+    VCHECK(lib == ref.data, "library-data:tail-text", "parse_data_string on a ", how, ": ", first_diff(lib, ref.data));
+    VCHECK(mask == ref.mask, "library-mask:tail-text", "parse_data_string mask on a ", how, ": ", first_diff(mask, ref.mask));
+  }
+
+  string tag = cat("c09tail-", getpid());
+  string in_path = tag + "-in.txt";
+  {
+    FILE* f = fopen(in_path.c_str(), "wb");
+    if (!f) throw std::runtime_error("cannot write the input file in the scratch directory");
+    if (!text.empty() && fwrite(text.data(), 1, text.size(), f) != text.size()) {
+      fclose(f);
+      throw std::runtime_error("short write of the input file");
+    }
+    fclose(f);
+  }
+  struct Cleanup {
+    string p;
+    ~Cleanup() { unlink(p.c_str()); }
+  } cleanup{in_path};
+  size_t chunk = static_cast<size_t>(opts >> 8);
+  for (unsigned delivery = 0; delivery < 3; delivery++) {
+    bool out_named = (opts >> delivery) & 1, dash = (opts >> (3 + delivery)) & 1;
+    ToolRun tr = run_tool_once(text, in_path, delivery, out_named, dash, chunk, tag);
+    string via = cat(kDeliveryNames[delivery], out_named ? ", output to a named file" : ", output on stdout", delivery == 2 ? cat(", written in chunks of ", chunk ? chunk : text.size(), " bytes") : string());
+    VCHECK(!tr.hung, cat("tool-hang:", kDeliveryNames[delivery]), "parse-data did not finish within 300 s on a ", how, " via ", via);
+    VCHECK(tr.status == 0, cat("tool-exit:", kDeliveryNames[delivery]), "parse-data exited with status ", tr.status, " on a ", how, " via ", via, "; stderr: ", tr.err.substr(0, 600));
+    VCHECK(tr.out == lib, cat("tool-vs-library:", kDeliveryNames[delivery]), "parse-data output differs from what parse_data_string of the same tree returns for exactly the bytes delivered, a ", how,
+        " via ", via, ": ", first_diff(tr.out, lib), " (tool vs library)");
+  }
+  if (!ref.documented || trailing > 0) ctx().nontrivial_case();
+  ctx().cls(cat("tail:", kind < T_COUNT ? kTailNames[kind] : "given text"));
+  ctx().cls(trailing == 0 ? "tail:no trailing blank" : trailing == 1 ? "tail:1 trailing blank" : "tail:2+ trailing blanks");
+  ctx().cls(ref.documented ? "tail:whole text documented" : cat("tail:text ends unfinished (", ref.why, ")"));
+  if (!text.empty() && text.back() == '\n') ctx().cls("tail:text ends with LF");
+}
+
 // ---------------------------------------------------------------- generator / enumerator
 
 static uint64_t gen_length() {
@@ -519,6 +651,46 @@ static void enum_tool(Enum& e) {
   e.complete("5 text profiles (mixed, endianness, comments, strings, plain hex) x text lengths {0, 1, 2, 100, 4095, 4096, 4097, 65535, 65536, 65537, 200000} x 3 deliveries (file argument, redirected stdin, pipe)");
 }
 
+static Case gen_tail() {
+  uint64_t len;
+  switch (vg::below(10)) {
+    case 0: len = 0; break;
+    case 1:
+    case 2:
+    case 3: len = vg::below(200); break;
+    case 4:
+    case 5:
+    case 6: len = 200 + vg::below(6000); break;
+    case 7: len = 4096 - 40 + vg::below(60); break; // the end of the text near a page / stdio buffer boundary
+    case 8: len = 65536 - 40 + vg::below(60); break;
+    default: len = vg::below(20000); break;
+  }
+  uint64_t kind = vg::chance(1, 2) ? vg::below(2) : vg::below(T_COUNT);
+  uint64_t blanks = vg::chance(1, 8) ? 0 : vg::chance(3, 4) ? 1 + vg::below(3) : 1 + vg::below(8);
+  uint64_t profile = vg::chance(1, 12) ? P_PLAIN : vg::below(P_PLAIN);
+  return Case("tooltail").N(vg::u64()).N(len).N(profile).N(gen_opts(len + 64)).N(kind).N(blanks);
+}
+
+static void enum_tail(Enum& e) {
+  static const char* const heads[] = {"", "$41 ?\"x\" ##7 "};
+  static const char* const tails[] = {"", "\"", "'", "\"ab", "'ab", "\"a\\", "'a\\", "\"\\", "/*", "/* x *", "//x", "#", "%", "4"};
+  vector<string> blanks;
+  for_all_strings(" \t\r\n", 2, [&](const string& b) {
+    blanks.push_back(b);
+    return true;
+  });
+  uint64_t idx = 0;
+  for (const char* head : heads)
+    for (const char* tail : tails)
+      for (const string& b : blanks) {
+        if (e.stop) return;
+        if (!e.mine(idx++)) continue;
+        e.exec(Case("tooltail").N(0).N(0).N(0).N((idx * 11) & 63).S(string(head) + tail + b));
+      }
+  e.complete("2 heads (empty, a few closed constructs with $ and ? switched) x 14 tails (nothing, open \"...\" / '...' strings empty, with content, with a backslash last, "
+             "open /* comment, // comment, # and % markers, one hex digit) x every string of length 0..2 over {space, tab, CR, LF} x 3 deliveries");
+}
+
 int main(int argc, char** argv) {
   const char* tool = getenv("C09_PARSE_DATA");
   if (!tool || access(tool, X_OK) != 0) {
@@ -529,5 +701,6 @@ int main(int argc, char** argv) {
   signal(SIGPIPE, SIG_IGN);
   vector<SubCheck> checks;
   checks.push_back({"tool", run_tool, gen_tool, 600, 6000, 100, enum_tool});
+  checks.push_back({"tooltail", run_tail, gen_tail, 400, 5000, 100, enum_tail});
   return main_(argc, argv, checks);
 }
